@@ -7,7 +7,10 @@ TraceLog == ndJsonDeserialize("hist.ndjson")
 VARIABLES l, bad
 TInit == l = 1 /\ bad = <<>>
 Pairs(x) == [i \in 1..Len(x) |-> <<x[i][1], x[i][2]>>]
-Guard(e) == CASE e.a = "Req" -> Pairs(e.got) = Pairs(e.want) /\ e.nevents = 1
+\* (got / want: the event logged by the innermost handler; gotpost / wantpost: an event logged after the chain returned,
+\*  which also carries what EtagHandler / ResponseHeaderHandler add on the way out, innermost first)
+Guard(e) == CASE e.a = "Req" -> /\ Pairs(e.got) = Pairs(e.want) /\ e.nevents = 1
+                                /\ Pairs(e.gotpost) = Pairs(e.wantpost) /\ e.npost = 1
               [] e.a = "Base" -> Pairs(e.got) = << <<"base", "b">> >>
               [] e.a = "End" -> e.done
               [] OTHER -> TRUE
